@@ -104,5 +104,8 @@ def chash(x) -> int:
 
 
 def short(x, n=160) -> str:
-    r = repr(x)
+    try:
+        r = repr(x)
+    except Exception as e:  # noqa: BLE001 - e.g. RecursionError on a very deep value
+        r = f"<unprintable {type(x).__name__}: {type(e).__name__}>"
     return r if len(r) <= n else r[: n - 3] + "..."
